@@ -371,7 +371,26 @@ fn unicase(lo: u32, hi: u32) -> String {
             }
         }
     }
-    format!("R=L:{};U:{}", low.join(","), upp.join(","))
+    // the two character classes behind the one context rule of str::to_lowercase (capital sigma at the end of a word), recovered from its behaviour:
+    // with a non-cased neighbour ('1'), "1cΣ" ends in final sigma iff c is cased and not case-ignorable; with a cased one, "acΣ" does iff c is cased or case-ignorable
+    let probe = |prefix: char, c: char| -> bool { let t: String = [prefix, c, '\u{3a3}'].iter().collect(); t.to_lowercase().ends_with('\u{3c2}') };
+    let ranges = |p: &dyn Fn(char) -> bool| -> String {
+        let mut out = vec![];
+        let mut start: Option<u32> = None;
+        for c in lo..=hi {
+            let v = char::from_u32(c).map(|ch| p(ch)).unwrap_or(false);
+            match (v, start) {
+                (true, None) => start = Some(c),
+                (false, Some(s0)) => { out.push(format!("{}-{}", s0, c - 1)); start = None; }
+                _ => {}
+            }
+        }
+        if let Some(s0) = start { out.push(format!("{}-{}", s0, hi)); }
+        out.join(",")
+    };
+    let cased = ranges(&|c| probe('1', c));
+    let ignorable = ranges(&|c| probe('a', c) && !probe('1', c));
+    format!("R=L:{};U:{};C:{};I:{}", low.join(","), upp.join(","), cased, ignorable)
 }
 
 // ---------- front end: expected results and re-rendering ----------
